@@ -57,6 +57,9 @@ type Scenario struct {
 	Transport string  `json:"transport"`
 	Queue     int     `json:"queue"`
 	Events    []Event `json:"events"`
+	// DefaultLimits: the library's default parallel-request limits (1 in total, 1 per path) and
+	// NSTART 1 instead of generous ones: requests issued by two handlers at once then queue up
+	DefaultLimits bool `json:"defaultLimits,omitempty"`
 }
 
 type getter interface {
@@ -145,13 +148,17 @@ func Exec(t *testing.T, sc Scenario, r *evid.Run) *evid.Failure {
 			hlog[idx].done = true
 			mu.Unlock()
 		}
+		limit, nstart := int64(64), uint32(64)
+		if sc.DefaultLimits {
+			limit, nstart = 1, 1
+		}
 		if sc.Transport == "udp" {
 			link := memnet.NewPacketLink(memnet.LinkCfg{LatencyMs: 1})
 			c := endpoints.UDP(link.A, []udp.Option{
 				options.WithMessagePool(pool.New(8, 2048)), options.WithPeriodicRunner(tk.Runner()),
 				options.WithBlockwise(false, 6, time.Second), options.WithReceivedMessageQueueSize(sc.Queue),
-				options.WithLimitClientParallelRequest(64), options.WithLimitClientEndpointParallelRequest(64),
-				options.WithTransmission(64, 2*time.Second, 2),
+				options.WithLimitClientParallelRequest(limit), options.WithLimitClientEndpointParallelRequest(limit),
+				options.WithTransmission(nstart, 2*time.Second, 2),
 				options.WithHandlerFunc(udpClient.HandlerFunc(func(rw *responsewriter.ResponseWriter[*udpClient.Conn], rq *pool.Message) {
 					handle(rw.Conn(), rq, func(code codes.Code) error {
 						return rw.SetResponse(code, message.TextPlain, bytes.NewReader([]byte("ok")))
@@ -164,7 +171,7 @@ func Exec(t *testing.T, sc Scenario, r *evid.Run) *evid.Failure {
 			c, err := endpoints.TCP(link.A, []tcp.Option{
 				options.WithMessagePool(pool.New(8, 2048)), options.WithPeriodicRunner(tk.Runner()),
 				options.WithBlockwise(false, 6, time.Second), options.WithReceivedMessageQueueSize(sc.Queue), options.WithCloseSocket(),
-				options.WithLimitClientParallelRequest(64), options.WithLimitClientEndpointParallelRequest(64),
+				options.WithLimitClientParallelRequest(limit), options.WithLimitClientEndpointParallelRequest(limit),
 				options.WithHandlerFunc(tcpClient.HandlerFunc(func(rw *responsewriter.ResponseWriter[*tcpClient.Conn], rq *pool.Message) {
 					handle(rw.Conn(), rq, func(code codes.Code) error {
 						return rw.SetResponse(code, message.TextPlain, bytes.NewReader([]byte("ok")))
@@ -289,9 +296,16 @@ func Exec(t *testing.T, sc Scenario, r *evid.Run) *evid.Failure {
 			}
 		}
 		// wind down: release every gate, answer everything that is still pending
-		for round := 0; round < 12; round++ {
+		// (with the default limits the outstanding requests are served one at a time: go on while the
+		// peer still finds something to answer)
+		for round, idle := 0, 0; round < 200 && idle < 12; round++ {
 			bubble.Wait()
 			scan()
+			if len(pendingNested)+len(pendingApp) > 0 {
+				idle = 0
+			} else {
+				idle++
+			}
 			for _, g := range gates {
 				select {
 				case <-g:
@@ -404,6 +418,7 @@ func b2i(b bool) int64 {
 
 func gen(t *rapid.T) Scenario {
 	sc := Scenario{Transport: rapid.SampledFrom([]string{"udp", "tcp"}).Draw(t, "transport"), Queue: rapid.SampledFrom([]int{0, 1, 16}).Draw(t, "queue")}
+	sc.DefaultLimits = rapid.IntRange(0, 3).Draw(t, "deflimits") == 0
 	n := rapid.IntRange(1, 14).Draw(t, "nev")
 	allPlain := rapid.IntRange(0, 4).Draw(t, "allplain") == 0
 	id, app := 0, 0
@@ -516,7 +531,7 @@ func TestCheck(t *testing.T) {
 		return f
 	})
 	r.Main(evid.Meta{
-		Rule:        "a connection (datagram and stream, receive queue 0/1/16) in a synctest bubble; the scripted peer injects numbered requests whose handlers return at once, block on 1-3 sequential requests issued on the same connection, or block on a gate, or stay busy without blocking; message IDs of the peer's choosing, some of them equal or close to the IDs the library itself is about to use or half the ID space away; messages arrive one by one (quiescence in between) or in bursts that pile up in the receive queue; it answers the nested requests after delivering further messages, other goroutines issue requests meanwhile, the connection may be closed at a generated point; Oracle: every message injected while the connection is open reaches the handler exactly once; every nested request completes with its own response (so later messages — among them the awaited response — are processed while a handler waits); every handler finishes once gates are open and nested requests answered; application requests complete; with only non-blocking handlers and no other user of the connection the dispatch order equals the arrival order. Non-trivial = a handler waits on a nested request while a further message arrives; distinct by scenario",
+		Rule:        "a connection (datagram and stream, receive queue 0/1/16, generous request limits or the library's defaults of one outstanding request) in a synctest bubble; the scripted peer injects numbered requests whose handlers return at once, block on 1-3 sequential requests issued on the same connection, or block on a gate, or stay busy without blocking; message IDs of the peer's choosing, some of them equal or close to the IDs the library itself is about to use or half the ID space away; messages arrive one by one (quiescence in between) or in bursts that pile up in the receive queue; it answers the nested requests after delivering further messages, other goroutines issue requests meanwhile, the connection may be closed at a generated point; Oracle: every message injected while the connection is open reaches the handler exactly once; every nested request completes with its own response (so later messages — among them the awaited response — are processed while a handler waits); every handler finishes once gates are open and nested requests answered; application requests complete; with only non-blocking handlers and no other user of the connection the dispatch order equals the arrival order. Non-trivial = a handler waits on a nested request while a further message arrives; distinct by scenario",
 		Assumptions: []string{"a handler that blocks on something other than its own connection (the gate) legitimately stalls later messages until it returns", "after close nothing is required of undelivered messages"},
 		Floor:       300,
 	}, eng)
